@@ -148,6 +148,16 @@ Definition read_string (s : bytes) : res (bytes * bytes) :=
   | None => match s with [] => Panic | _ => Ok (lossy (removelast s), []) end
   end.
 
+(* the same without the lossy conversion: the bytes as the client sent them *)
+Definition read_raw (s : bytes) : res (bytes * bytes) :=
+  match split0 s with
+  | Some (p, r) => Ok (p, r)
+  | None => match s with [] => Panic | _ => Ok (removelast s, []) end
+  end.
+(* Parse's query text since a7561f2: read_until + truncate(len.saturating_sub(1)) — raw bytes, never fails *)
+Definition read_query (s : bytes) : bytes * bytes :=
+  match split0 s with Some (p, r) => (p, r) | None => (removelast s, []) end.
+
 (** [cursor.advance(5)] (Parse::get_name, Bind::get_name): asserts pos <= len. *)
 Definition advance5 (s : bytes) : res bytes :=
   match s with _ :: _ :: _ :: _ :: _ :: r => Ok r | _ => Panic end.
@@ -169,7 +179,7 @@ Definition decode_parse_k (b : bytes) : res (parse * bytes) :=
   '(code, s1) <- get_u8 b ;;
   '(len, s2) <- get_i32 s1 ;;
   '(name, s3) <- read_string s2 ;;
-  '(query, s4) <- read_string s3 ;;
+  let '(query, s4) := read_query s3 in
   '(np, s5) <- get_i16 s4 ;;
   '(tys, s6) <- get_n get_i32 (Z.to_nat np) s5 ;;
   Ok (mkParse code len name query np tys, s6).
@@ -191,8 +201,8 @@ Definition parse_get_name (b : bytes) : res bytes :=
   s <- advance5 b ;; '(n, _) <- read_string s ;; Ok n.
 
 (** What [Parse::get_hash] distinguishes (after commit f0b6d0f): the three fields, fed
-    separately.  [hstream] is the byte stream the hasher sees ([str::hash] = bytes then
-    0xFF; [i16::hash] = 2 bytes LE; [Vec<i32>::hash] = usize length LE then the elements
+    separately.  [hstream] is the byte stream the hasher sees ([Vec<u8>::hash] = usize length LE
+    then the bytes, since a7561f2; [i16::hash] = 2 bytes LE; [Vec<i32>::hash] = usize length LE then the elements
     LE); SipHash-1-3 of that stream is the cache key. *)
 Definition hkey (p : parse) : bytes * Z * list Z := (p_query p, p_np p, p_types p).
 
@@ -201,7 +211,7 @@ Fixpoint le_go (k : nat) (u : Z) : bytes :=
 Definition le_bytes (n : nat) (z : Z) : bytes := le_go n (z mod 2 ^ (8 * Z.of_nat n)).
 Definition hstream (k : bytes * Z * list Z) : bytes :=
   let '(q, np, tys) := k in
-  q ++ [255%N] ++ le_bytes 2 np ++ le_bytes 8 (Z.of_nat (length tys)) ++ flat_map (le_bytes 4) tys.
+  le_bytes 8 (Z.of_nat (length q)) ++ q ++ le_bytes 2 np ++ le_bytes 8 (Z.of_nat (length tys)) ++ flat_map (le_bytes 4) tys.
 
 (** The key hashed BEFORE the repair: format!("{}{}{}", query, num_params, types.join(",")) *)
 Fixpoint dec_pos (fuel : nat) (n : Z) (acc : bytes) : bytes :=
@@ -282,12 +292,11 @@ Definition bind_get_name (b : bytes) : res bytes :=
 Definition rename_bind (chk : bool) (buf : bytes) (m : bytes) : res bytes :=
   '(code, s1) <- get_u8 buf ;;
   '(len, s2) <- get_i32 s1 ;;
-  '(portal, s3) <- read_string s2 ;;
-  '(old, tail) <- read_string s3 ;;
+  '(portal, s3) <- read_raw s2 ;;          (* since 15e9536: the portal is copied as sent, the old name's *)
+  '(old, tail) <- read_raw s3 ;;           (* length is its byte length (cursor positions), nothing lossy  *)
   t <- ck32 chk (len + blen m) ;;
   new_len <- ck32 chk (t - blen old) ;;
   if (new_len <? 0) && (chk || negb (new_len =? -1)) then Panic else
-  if has0 portal then Err else
   if has0 m then Err else
   Ok (code :: be32 new_len ++ portal ++ 0%N :: m ++ 0%N :: tail).
 
@@ -359,7 +368,7 @@ Definition parse_canonical (b : bytes) : bool :=
         match s4 with
         | n1 :: n2 :: s5 =>
           (0 <=? i16_of n1 n2) && (blen s5 =? 4 * i16_of n1 n2) && (i32_of l1 l2 l3 l4 =? blen b - 1)
-          && forallb byteb b && cleanb nm && cleanb q
+          && forallb byteb b && cleanb nm
         | _ => false end
       | None => false end
     | None => false end
